@@ -357,17 +357,3 @@ pub fn replay_one(idx: usize, v: &Value, rep: &Report, cnt: &mut Counts, o: &Opt
     }
 }
 
-pub fn replay(vs: &[Value], rep: &Report, o: &Opts, threads: usize) {
-    let idx: Vec<usize> = (0..vs.len()).collect();
-    par_chunks(&idx, threads, |_, ch| {
-        let mut cnt = Counts::default();
-        for &i in ch {
-            replay_one(i, &vs[i], rep, &mut cnt, o);
-            cnt.add("vectors", 1);
-        }
-        rep.merge_counts(&cnt.0);
-    });
-    for v in vs.iter().take(3) {
-        rep.sample(v.clone());
-    }
-}
